@@ -200,7 +200,7 @@ def extra_calls():
     return items
 
 
-def catalogue(type_cases, limit=None, salt="c", by_dim=True):
+def catalogue(type_cases, limit=None, salt="c", by_dim=True, cover=True):
     """Call list: the executed states of Types.tla (one sampled system pairing each) plus extra_calls()."""
     items = []
     for tc in type_cases:
@@ -228,7 +228,7 @@ def catalogue(type_cases, limit=None, salt="c", by_dim=True):
                     (("xy", "eta", "tau"), ("rhophi", "z", "tau")), (("rhophi", "z", "t"), ("xy", "theta", "t"))],
                 3: [(("xy", "z"), ("rhophi", "eta")), (("rhophi", "theta"), ("xy", "z")), (("xy", "eta"), ("xy", "theta"))],
                 2: [(("xy",), ("rhophi",)), (("rhophi",), ("xy",))]}
-        if by_dim:
+        if by_dim and cover:
             for it in must.values():
                 da = it["tc"]["a"][2]
                 db = it["tc"]["b"][2] if it["tc"]["b"][0] != "none" else 0
@@ -348,7 +348,7 @@ PRIORS = [
 
 def session_in_subprocess(args):
     """One session under one prior setting, in registered or unregistered Awkward mode (fresh process)."""
-    prior_index, registered, type_cases, limit, tid = args
+    prior_index, registered, type_cases, limit, tid, covering = args
     import vector
 
     name, setup = PRIORS[prior_index]
@@ -362,7 +362,7 @@ def session_in_subprocess(args):
             gpost = fingerprint()
             events.append({"tid": tid, "thread": "main", "seq": -2 + k, "kind": "register_awkward", "backend": "-",
                            "mutating": "F", "raised": "F", "pre": [], "post": [], "gpre": gpre, "gpost": gpost})
-    items = catalogue(type_cases, limit, salt=name)
+    items = catalogue(type_cases, limit, salt=name, cover=covering)
     ev, _ = run_session(items, tid=tid)
     for e in ev:
         e["prior"] = name
@@ -373,14 +373,14 @@ def session_in_subprocess(args):
     return events + ev
 
 
-def run_sessions(type_cases, limit, procs=8):
+def run_sessions(type_cases, limit, procs=8, covering=True):
     import multiprocessing as mp
 
     jobs = []
     tid = 0
     for p in range(len(PRIORS)):
         for registered in (False, True):
-            jobs.append((p, registered, type_cases, limit, tid))
+            jobs.append((p, registered, type_cases, limit, tid, covering))
             tid += 1
     ctx = mp.get_context("spawn")       # fresh interpreters: priors and registration must not leak
     out = []
